@@ -60,6 +60,7 @@ CROSS = {
     ("C15-r1", "C12"): "genuine: the loader's high-byte store no longer goes to (a+1) mod 2^20",
     ("C04-r2", "C11"): "genuine: the assembler drops a component of the source operand (`ds` override), which C11's `operands are preserved` clause covers; through it `ds[bp]` is addressed through SS (C04)",
     ("C12-r2", "C15"): "genuine: the 16-bit product 2*n aborts the assembler for n >= 32768 (C15: no input text aborts)",
+    ("C04-r1", "C09"): "genuine: an index of exactly 2^20 aborts the emulator (C09: every memory access stays inside 1 MB)",
     ("C04-r1", "C05"): "genuine: with make_valid_address yielding exactly 1 MB the stack cell of POP is no longer (16*SS+SP) mod 2^20 (C05's stack clause; index 1048576 is outside the memory)",
     ("C04-r1", "C07"): "genuine: the same address helper gives the string elements' cells; at FFFFh:0010h the element is addressed outside the 1 MB space (C07: elements at DS:SI / ES:DI)",
     ("C04-r4", "C05"): "genuine: XCHG word [mem],reg stores the register's bytes in the wrong order (C05: XCHG is an exact exchange)",
